@@ -117,11 +117,22 @@ func funcToFloat(ctx *Context, this *VMValue, params []*VMValue) *VMValue {
 }
 
 func funcToStr(ctx *Context, this *VMValue, params []*VMValue) *VMValue {
-	return NewStrVal(params[0].ToString())
+	s := params[0].ToString()
+	if len(s) > maxStringLength {
+		// 与拼接、模板同一个上限: 容器的文本形式可以远大于 1 MiB (toStr([s]*512))，不能成为字符串值
+		ctx.Error = errors.New("不能一次性创建过长的字符串")
+		return nil
+	}
+	return NewStrVal(s)
 }
 
 func funcRepr(ctx *Context, this *VMValue, params []*VMValue) *VMValue {
-	return NewStrVal(params[0].ToRepr())
+	s := params[0].ToRepr()
+	if len(s) > maxStringLength {
+		ctx.Error = errors.New("不能一次性创建过长的字符串")
+		return nil
+	}
+	return NewStrVal(s)
 }
 
 func funcTypeId(ctx *Context, this *VMValue, params []*VMValue) *VMValue {
